@@ -6,7 +6,7 @@ from concurrent.futures import ProcessPoolExecutor
 
 from vf.core import Report, Bounded, Violation, Ob
 
-LEVEL = "exploration"
+LEVEL = "other"
 ABI_TYPES = ["uint64", "string", "bool", "byte[2]", "(uint8,string)", "address", "uint16[]", "uint8", "bool[3]", "(bool,bool,uint16)"]
 TXN_TYPES = {"txn": None, "pay": 1, "keyreg": 2, "acfg": 3, "axfer": 4, "afrz": 5, "appl": 6}
 REF_TYPES = ["account", "asset", "application"]
@@ -246,11 +246,23 @@ def run(report: Report, tier, seed):
     from pyteal.ast.abi.method_return import MethodReturn
     from pyteal import config
     report.trust("algosdk.abi (reference codec, Method selectors)", "spec/avm.py", "ARC-4 calling convention as written in checks/c09.py (14 + tuple packing, reference indices, preceding group transactions)")
-    report.assume("no deductive obligation yet for the generated glue (__decode_constructions_and_args, __de_abify_*): bounded stand-in over generated signatures")
+    report.assume("the decode glue (__decode_constructions_and_args) is run for every arity in a stated range on opaque values and compared structurally with the ARC-4 convention (E: exhaustive within the range, "
+                  "not a proof for all arities); __de_abify_* / wrap_handler (call, result logging, approve) and run-time behaviour: bounded stand-in over generated signatures")
     ok = config.RETURN_HASH_PREFIX == bytes.fromhex("151f7c75") and config.METHOD_ARG_NUM_CUTOFF == 15
     report.ob(Ob(id="O9.3/constants", function="pyteal.config", kind="E", status="discharged" if ok else "refuted", backend="enumeration(2)",
                  detail="RETURN_HASH_PREFIX == 0x151f7c75 and METHOD_ARG_NUM_CUTOFF == 15 (ARC-4)",
                  model=None if ok else [config.RETURN_HASH_PREFIX.hex(), config.METHOD_ARG_NUM_CUTOFF]))
+    from . import router_glue
+    gj = router_glue.jobs(tier)
+    with ProcessPoolExecutor(max_workers=16) as ex:
+        gr = list(ex.map(router_glue.case, gj, chunksize=8))
+    gbad = [r for r in gr if r["problems"]]
+    amax = max(j[0] for j in gj)
+    report.ob(Ob(id="O9.1/decode-glue-follows-arc4-for-every-arity", function="pyteal.ast.router.ASTBuilder.__decode_constructions_and_args", kind="E",
+                 status="refuted" if gbad else "discharged", backend=f"enumeration({len(gj)} arities: 0..{amax} plain x 0..4 transaction arguments x output x scratch / frame pointers; values opaque)",
+                 detail="plain argument i decoded from ApplicationArgs[i+1]; beyond 15 one tuple from ApplicationArgs[15] then de-tupled in order into arguments 14..; transaction argument j of t bound to "
+                        "GroupIndex - (t - j) with a type-enum assertion for specific types; order plain, transactions, de-tupling; nothing else",
+                 model=[(b["job"], b["problems"][0]) for b in gbad[:3]] or None))
     n = 60 if tier == "quick" else 800
     jobs = [(seed * 7919 + i, [6, 7, 8, 9, 10][i % 5], i % 4 == 0) for i in range(n)]
     with ProcessPoolExecutor(max_workers=16) as ex:
@@ -268,8 +280,8 @@ def run(report: Report, tier, seed):
                                   contract="the contract lists exactly the successfully registered methods, in order, under the signatures the program dispatches on; each is callable through its listed selector; refused registrations leave no trace",
                                   bound=f"all histories of <= 2 registration actions over {len(REG_ACTIONS)} kinds (plain / overriding name / decorator / described / three refused kinds), {'every 7th' if tier == 'quick' else 'all'} of length 3, versions 6, 8, 10",
                                   cases=len(rr), distinct_nontrivial=len(rr), failures=len(rbad)))
-    report.extra["explanation"] = "bounded stand-in over generated method signatures and registration histories; constants by enumeration"
-    report.settle_refuted(None)
+    report.extra["explanation"] = "E: decode glue over every arity in a range (values opaque), constants; B: generated method signatures executed on the spec AVM, registration histories"
+    report.settle_refuted(lambda fn, obs: ({"input": {"glue": gbad[0]["job"]}, "what": gbad[0]["problems"][0]} if gbad else None))
     for b in rbad[:3]:
         report.violation(Violation(key=f"registration:{b['actions']}", what=f"registration history {b['actions']} v{b['version']}: {b['problems'][0]}"[:400],
                                    replay={"registration": [b["actions"], b["version"]], "problems": b["problems"][:3]}, confirmed_native=True))
@@ -280,6 +292,12 @@ def run(report: Report, tier, seed):
 
 
 def replay(data):
+    nat = ((data.get("replay") or {}).get("native") or {}).get("input") or {}
+    if nat.get("glue"):
+        from . import router_glue
+        out = router_glue.case(tuple(nat["glue"]))
+        print(out["problems"][:2])
+        return 1 if out["problems"] else 0
     reg = (data.get("replay") or {}).get("registration")
     if reg:
         out = registration_case((reg[0], reg[1]))
